@@ -235,7 +235,52 @@ fn case_typed<S: Spec>(sub: &str, id: u64, r: &mut Report) {
     }
 }
 
+/// the public cores are SeedableRng themselves: every seeding route of a core
+/// (also through a hand-built BlockRng / BlockRng64) must give the stream of the
+/// corresponding Rng type
+fn core_case(sub: &str, id: u64, r: &mut Report) {
+    use rand_core::block::{BlockRng, BlockRng64};
+    let mut p = Prng::new(id);
+    let x = special_u64(&mut p, id % 12);
+    let data = p.bytes(2200);
+    let seed: [u8; 32] = p.bytes(32).try_into().unwrap();
+    macro_rules! cmp {
+        ($name:expr, $a:expr, $b:expr, $n:expr, $next:ident) => {{
+            let (mut a, mut b) = ($a, $b);
+            for k in 0..$n {
+                r.eval();
+                let (u, v) = (a.$next(), b.$next());
+                if u != v {
+                    r.violation(format!("{}:core_route_differs_from_rng_route", $name), sub, id, json!({"x": hx64(x), "seed": hex(&seed), "position": k}));
+                    return;
+                }
+            }
+        }};
+    }
+    use rand_hc::{Hc128Core, Hc128Rng};
+    use rand_isaac::{isaac::IsaacCore, isaac64::Isaac64Core, Isaac64Rng, IsaacRng};
+    cmp!("Hc128Core:seed_from_u64", BlockRng::new(Hc128Core::seed_from_u64(x)), Hc128Rng::seed_from_u64(x), 40, next_u32);
+    cmp!("BlockRng<Hc128Core>:seed_from_u64", BlockRng::<Hc128Core>::seed_from_u64(x), Hc128Rng::seed_from_u64(x), 40, next_u32);
+    cmp!("Hc128Core:from_seed", BlockRng::new(Hc128Core::from_seed(seed)), Hc128Rng::from_seed(seed), 40, next_u32);
+    cmp!("Hc128Core:from_rng", BlockRng::new(Hc128Core::from_rng(&mut SourceRng::new(data.clone()))), Hc128Rng::from_rng(&mut SourceRng::new(data.clone())), 40, next_u32);
+    cmp!("IsaacCore:seed_from_u64", BlockRng::new(IsaacCore::seed_from_u64(x)), IsaacRng::seed_from_u64(x), 300, next_u32);
+    cmp!("BlockRng<IsaacCore>:seed_from_u64", BlockRng::<IsaacCore>::seed_from_u64(x), IsaacRng::seed_from_u64(x), 300, next_u32);
+    cmp!("IsaacCore:from_seed", BlockRng::new(IsaacCore::from_seed(seed)), IsaacRng::from_seed(seed), 300, next_u32);
+    cmp!("IsaacCore:from_rng", BlockRng::new(IsaacCore::from_rng(&mut SourceRng::new(data.clone()))), IsaacRng::from_rng(&mut SourceRng::new(data.clone())), 300, next_u32);
+    cmp!("IsaacCore:try_from_rng", BlockRng::new(IsaacCore::try_from_rng(&mut FallibleSource(SourceRng::new(data.clone()))).unwrap()), IsaacRng::from_rng(&mut SourceRng::new(data.clone())), 300, next_u32);
+    cmp!("Isaac64Core:seed_from_u64", BlockRng64::new(Isaac64Core::seed_from_u64(x)), Isaac64Rng::seed_from_u64(x), 300, next_u64);
+    cmp!("BlockRng64<Isaac64Core>:seed_from_u64", BlockRng64::<Isaac64Core>::seed_from_u64(x), Isaac64Rng::seed_from_u64(x), 300, next_u64);
+    cmp!("Isaac64Core:from_seed", BlockRng64::new(Isaac64Core::from_seed(seed)), Isaac64Rng::from_seed(seed), 300, next_u64);
+    cmp!("Isaac64Core:from_rng", BlockRng64::new(Isaac64Core::from_rng(&mut SourceRng::new(data.clone()))), Isaac64Rng::from_rng(&mut SourceRng::new(data.clone())), 300, next_u64);
+    cmp!("Isaac64Core:try_from_rng", BlockRng64::new(Isaac64Core::try_from_rng(&mut FallibleSource(SourceRng::new(data.clone()))).unwrap()), Isaac64Rng::from_rng(&mut SourceRng::new(data.clone())), 300, next_u64);
+    r.cov("core_routes");
+    r.distinct(hkey(&[&"cores", &x, &seed[..].to_vec()]));
+}
+
 fn case(sub: &str, id: u64, r: &mut Report) {
+    if sub == "cores" {
+        return core_case(sub, id, r);
+    }
     let ti = Prng::new(id ^ 0x4321).below(N_TYPES as u64) as usize;
     with_spec!(ti, S => case_typed::<S>(sub, id, r));
 }
@@ -249,7 +294,9 @@ pub fn run(ctx: &Ctx, only: Option<&Only>) -> Report {
     }
     let secs = if ctx.tier_thorough { ctx.budget_s } else { 0.0 };
     let mut total = drive(ctx, "seed_from_u64", 12_000, secs * 0.5, |id, r| case("seed_from_u64", id, r));
-    total.merge(drive(ctx, "from_rng", 12_000, secs * 0.5, |id, r| case("from_rng", id, r)));
+    total.merge(drive(ctx, "from_rng", 12_000, secs * 0.45, |id, r| case("from_rng", id, r)));
+    total.merge(drive(ctx, "cores", 1_500, secs * 0.05, |id, r| case("cores", id, r)));
+    total.floor("core_routes", 500);
     for n in TYPE_NAMES {
         total.floor(&format!("seed_from_u64:{}", n), 50);
         total.floor(&format!("from_rng:{}", n), 50);
